@@ -7,7 +7,7 @@ From GI Require Import Lib.Bytes Gen.TxtarWriteConsts Txtar.Txtar
   TxtarWrite.Path TxtarWrite.TxtarWrite TxtarWrite.PathFacts TxtarWrite.WriteFacts
   TxtarWrite.FuelFacts TxtarWrite.NulFacts TxtarWrite.RelFacts TxtarWrite.RelWrite TxtarWrite.GoodWrite
   TxtarWrite.SavedirFacts TxtarWrite.NameFacts TxtarWrite.SortFacts TxtarWrite.WalkFacts
-  TxtarWrite.Symlink TxtarWrite.SymlinkFacts.
+  TxtarWrite.Symlink TxtarWrite.SymlinkFacts TxtarWrite.SymlinkPlain.
 Import ListNotations.
 
 (* A cleaned name that the guard of Write lets through (not absolute, not "..", no
@@ -204,3 +204,15 @@ Theorem C15_symlink_never_overwrites : forall cwd dir files fs fs' r,
   s_write cwd fs dir files = (fs', r) -> forall p x, sget fs p = Some x -> sget fs' p = Some x.
 Proof. exact symlink_never_overwrites. Qed.
 Print Assumptions C15_symlink_never_overwrites.
+
+(* ... and the link is what it takes: on states without symbolic links (sim: the two states
+   hold the same files and directories) the symlink model and the plain model agree on
+   Write for a directory named by an absolute string - same result (cr: the same verdict
+   in the other type), same resulting state.  The containment theorems above therefore hold
+   for the symlink model on link-free states. *)
+Theorem C15_symlink_model_agrees : forall cwd fs sfs dir a,
+  sim fs sfs -> is_abs dir = true ->
+  exists sfs', s_write cwd sfs dir (files a) = (sfs', cr (snd (write cwd fs dir a))) /\
+               sim (fst (write cwd fs dir a)) sfs'.
+Proof. exact symlink_model_agrees_write. Qed.
+Print Assumptions C15_symlink_model_agrees.
